@@ -49,6 +49,12 @@ T = [
  ("C18-A", "C18", "C18.R1", "crypt2 parser locates the wrapped key from the tail and drops stray bytes"),
  ("fixrev-db39786", "C18", "C18.R1", "rdp fixed-size parsers accept over-long input"),
  ("fixrev-496153b", "C18", "C18.R1", "wireguard initiation parser accepts over-long input"),
+ ("C07-A", "C07", "C07.R3", "session ticket extension no longer consumed"),
+ ("C07-B", "C07", "C07.R6", "tls matcher answers 'no' when the hello is not fully buffered"),
+ ("C14-A", "C14", "C14.R4", "remote_ip/local_ip take the address from AddrPort (IPv4-mapped form)"),
+ ("C14-B", "C14", "C14.R5", "dns deny decision flattened: denied & not allowed accepted under prefer_allow"),
+ ("C15-A", "C15", "C15.R6", "unhealthy_connection_count replaces HealthChecks and drops active options"),
+ ("C15-B", "C15", "C15.R7", "server counter restarts at 0 for a second global block"),
  ("C05-A", "C05", "C05.R2", "deadline armed once only; not re-armed after a matched non-terminal route"),
  ("C05-B", "C05", "C05.R5", "buffer limit measured from the cursor"),
  ("fixrev-396f23a", "C05", "C05.R2", "fallback of an empty route list runs with the deadline armed"),
